@@ -115,3 +115,18 @@ def model_check_dump(module, cfg, workers=8, timeout=1800):
     finally:
         shutil.rmtree(d, ignore_errors=True)
     return r, states
+
+
+def apalache_check(module, init, inv, length, timeout=900):
+    """Runs apalache-mc check; returns (ok, tail of output, wall)."""
+    d = tempfile.mkdtemp(prefix="gf_apa_")
+    t0 = time.time()
+    try:
+        p = subprocess.run(["apalache-mc", "check", "--init=" + init, "--inv=" + inv, "--length=%d" % length, "--out-dir=" + d, module],
+                           cwd=SPEC_DIR, stdout=subprocess.PIPE, stderr=subprocess.STDOUT, text=True, timeout=timeout)
+        out = p.stdout
+    except subprocess.TimeoutExpired:
+        out = "timeout"
+    finally:
+        shutil.rmtree(d, ignore_errors=True)
+    return ("The outcome is: NoError" in out and "EXITCODE: OK" in out), out[-1500:], time.time() - t0
